@@ -118,6 +118,7 @@ func jsontraceMain(args []string) int {
 
 	var detections, ndocs, mutated int64
 	classes := map[string]int{}
+	shared := make([]byte, 1<<16)
 	for d := 0; d < *docs; d++ {
 		var doc string
 		switch {
@@ -165,6 +166,34 @@ func jsontraceMain(args []string) int {
 			emit(shard, detectRec{Ev: "detect", Raw: bytes2ints(hdr), Limit: lim, InLen: len(raw), Cls: cls, Exempt: ex, Mime: m.String()})
 			if string(in) != doc {
 				rep.violate(mkViolation("C04", "caller-buffer-modified", raw, lim, "Detect modified its input"))
+			}
+		}
+		// the same document, whole, in ONE caller-owned buffer that held the previous document a moment ago
+		// (and is overwritten by the next one): the class must be the one obtained on the private copy
+		{
+			mimetype.SetLimit(0)
+			pc.on = false
+			c1, ex1 := nodes.classOf(mimetype.Detect(exact(raw)))
+			if len(raw) <= len(shared) && !ex1 {
+				for i := range shared[:len(raw)] {
+					shared[i] = 0
+				}
+				copy(shared, raw)
+				c2, _ := nodes.classOf(mimetype.Detect(shared[:len(raw)]))
+				detections += 2
+				if c1 != c2 {
+					prop := "C10"
+					if c2 == "" {
+						prop = "C08"
+					} else if c1 == "" {
+						prop = "C09"
+					}
+					rep.violate(mkViolation(prop, "class-differs-in-a-reused-buffer", raw, 0, fmt.Sprintf("class %q on a private copy, %q in a buffer that held another document before", c1, c2)))
+				}
+				// ... and the private copy again, AFTER the shared buffer was used and will be overwritten
+				if c3, _ := nodes.classOf(mimetype.Detect(exact(raw))); c3 != c1 {
+					rep.violate(mkViolation("C10", "class-depends-on-history", raw, 0, fmt.Sprintf("class %q, then %q after a detection in a reused buffer", c1, c3)))
+				}
 			}
 		}
 		if d < 6 {
